@@ -17,6 +17,64 @@ pub struct HWorld {
     pub sch_of: Vec<usize>,
 }
 
+/// A user function that returns a value of another type than it declares (Int where Bytes is declared), applied to
+/// an element, to every element of a field's array (borrowed) and to every element of arrays the engine built itself
+/// (owned).  Whatever the engine does with it - it panics - it must not hand out an array that says Array(Bytes) and
+/// holds integers: "arrays can only be built homogeneous".
+fn mistyped(k: usize) -> Value {
+    use wirefilter::{FunctionArgs, LhsValue, SimpleFunctionArgKind, SimpleFunctionDefinition, SimpleFunctionImpl, SimpleFunctionParam, Type};
+    fn liar<'a>(args: FunctionArgs<'_, 'a>) -> Option<LhsValue<'a>> {
+        let mut n = 0i64;
+        for a in args {
+            if let Ok(LhsValue::Bytes(b)) = a { n += b.len() as i64 }
+        }
+        Some(LhsValue::Int(n))
+    }
+    fn echo<'a>(args: FunctionArgs<'_, 'a>) -> Option<LhsValue<'a>> {
+        args.next()?.ok()
+    }
+    let def = |f: SimpleFunctionImpl| SimpleFunctionDefinition {
+        params: vec![SimpleFunctionParam { arg_kind: SimpleFunctionArgKind::Field, val_type: Type::Bytes }],
+        opt_params: vec![],
+        return_type: Type::Bytes,
+        implementation: f,
+    };
+    let mut b = wirefilter::SchemeBuilder::new();
+    b.add_field("tags", Type::Array(Type::Bytes.into())).unwrap();
+    b.add_function("liar", def(SimpleFunctionImpl::new(liar))).unwrap();
+    b.add_function("echo", def(SimpleFunctionImpl::new(echo))).unwrap();
+    b.add_function("concat", wirefilter::ConcatFunction::new()).unwrap();
+    let scheme = b.build();
+    let srcs = ["liar(tags[*])", "liar(echo(tags[*])[*])", "liar(concat(tags, tags)[*])", "liar(tags[0])", "echo(liar(tags[*])[*])", "concat(liar(tags[*]), tags)"];
+    let src = srcs[k % srcs.len()];
+    let mut ctx = wirefilter::ExecutionContext::<()>::new(&scheme);
+    let tags = wirefilter::Array::try_from_iter(Type::Bytes, ["a", "bc", "def"].iter().map(|s| LhsValue::Bytes(s.as_bytes().into()))).unwrap();
+    ctx.set_field_value_from_name("tags", tags).unwrap();
+    let r = catch_unwind(AssertUnwindSafe(|| {
+        let f = scheme.parse_value(src).map_err(|_| "ParseError")?.compile();
+        match f.execute(&ctx).map_err(|_| "SchemeMismatch")? {
+            Err(_) => Ok("absent"),
+            Ok(v) => {
+                fn honest(v: &Val) -> bool {
+                    match v {
+                        Val::Arr { e, v: items } => items.iter().all(|x| x.ty().as_ref() == Some(e) && honest(x)),
+                        Val::Map { e, v: items } => items.iter().all(|x| x.v.ty().as_ref() == Some(e) && honest(&x.v)),
+                        _ => true,
+                    }
+                }
+                let v = Val::from_engine(&v);
+                let declared_bytes = v.ty() == Some(Ty::Bytes) || v.ty() == Some(Ty::arr(Ty::Bytes));
+                if honest(&v) && declared_bytes { Ok::<&str, &str>("well-typed") } else { Ok("ill-typed") }
+            }
+        }
+    }));
+    match r {
+        Err(_) => res_err("panic"),
+        Ok(Err(e)) => res_err(e),
+        Ok(Ok(x)) => res_err(x),
+    }
+}
+
 fn res_ok(v: Val) -> Value {
     json!({"out": "ok", "v": v})
 }
@@ -175,6 +233,7 @@ impl HWorld {
                     _ => res_err("routes-disagree"),
                 }
             }
+            "mistyped" => mistyped(op["k"].as_u64().unwrap_or(0) as usize),
             _ => res_err("unknown-op"),
         }
     }
